@@ -189,7 +189,8 @@ fn judge(seed: u64, movie_as_configured: &MovieSpec, h: &[Op], what: &str, l: &m
         match guard(|| t.duration()) {
             Ok(d) => {
                 // reported unit: microseconds; one tick of rounding = max(1 us, one track tick)
-                let tol = (1.0f64 / spec.timescale as f64).max(1e-6) + 1e-6;
+                // + 8 ulps of the magnitude: the comparison itself is done in f64
+                let tol = (1.0f64 / spec.timescale as f64).max(1e-6) + 1e-6 + true_s.abs() * 8.0 * f64::EPSILON;
                 if (d.as_secs_f64() - true_s).abs() > tol {
                     fail("track_duration", "", json!(d.as_secs_f64()), json!(true_s), l);
                 }
@@ -200,7 +201,7 @@ fn judge(seed: u64, movie_as_configured: &MovieSpec, h: &[Op], what: &str, l: &m
     match guard(|| r.duration()) {
         Ok(d) => {
             // reported unit: milliseconds; rounding: one movie tick, then one millisecond
-            let tol = 1.0f64 / movie.timescale as f64 + 1e-3 + 1e-9;
+            let tol = 1.0f64 / movie.timescale as f64 + 1e-3 + 1e-9 + longest_s.abs() * 8.0 * f64::EPSILON;
             if (d.as_secs_f64() - longest_s).abs() > tol {
                 fail("movie_duration", if h.len() > 2 { "more_than_two_samples" } else { "" }, json!(d.as_secs_f64()), json!({"longest_track_s": longest_s, "tolerance_s": tol}), l);
             }
@@ -297,6 +298,18 @@ pub fn run(tier: Tier, seed: u64) -> i32 {
             }
             let m = MovieSpec::new(mts, vec![TrackSpec::new(k, tts)]);
             judge(seed, &m, &h, "durations_around_2^32-1_movie_ticks", l);
+        });
+    }
+
+    // long durations: the converted duration just above 2^k (k = 31..63) for timescale pairs far from 1:1 — the
+    // duration accessors must stay within one tick / one microsecond / one millisecond of the true value
+    {
+        let cases: Vec<crate::props::c13::BigCase> = crate::props::c13::cases(Tier::Quick).into_iter().filter(|c| c.name.starts_with("converted_duration_just_above")).collect();
+        enumerations.push(json!({"name": "converted_durations_just_above_2^k", "configs": cases.len(), "histories_each": 1}));
+        sweep(cases, &mut l, |c, l| {
+            let m = MovieSpec::new(c.movie_ts, vec![TrackSpec::new(c.tracks[0].0, c.tracks[0].1)]);
+            let h: Vec<Op> = c.samples.iter().map(|s| Op { track: s.0, size: s.1 as u32, dur: s.2, off: s.3, sync: s.4 }).collect();
+            judge(seed, &m, &h, "converted_durations_just_above_2^k", l);
         });
     }
 
